@@ -179,10 +179,12 @@ async def run_sequence(net, hyg, plan):
         skw["wait_future_timeout"] = None       # unlimited wait for the data connection ("never" is not generated with it)
     elif cfg == "limits":
         skw["maximum_connections"] = 1
+    elif cfg == "limits-held":
+        skw["maximum_connections"] = 3
     elif cfg == "timeouts":
         skw.update(idle_timeout=50, socket_timeout=40, path_timeout=30, wait_future_timeout=2.5)
     w = W.World(net, tree=TREE0, backend=backend,
-                users=lambda base: aioftp_users(users, base, limit=1 if cfg == "limits" else None),
+                users=lambda base: aioftp_users(users, base, limit=1 if cfg in ("limits", "limits-held") else None),
                 block_size=plan.get("block_size", 8192), **skw)
     await w.start()
     viol = []
@@ -190,12 +192,25 @@ async def run_sequence(net, hyg, plan):
     transcript = []
     try:
         m = Model(users, TREE0)
+        holders = []
+        if cfg == "limits-held":
+            # every account with a password is in use by another session (limit 1): USER for it is refused with 530
+            m.held = set()
+            for login, pw in users.items():
+                if login is not None and pw is not None:
+                    hp = RawPeer(net, 2121, name="holder")
+                    await hp.connect()
+                    await hp.cmd("USER " + login)
+                    await hp.cmd("PASS " + pw)
+                    holders.append(hp)
+                    m.held.add(login)
         p = RawPeer(net, 2121)
         r = await p.connect()
         if r in (None, "EOF") or r.code != "220":
             return {"inconclusive": f"no greeting: {r}"}
         rng = random.Random(plan.get("seed", 0))
         gen = Gen(rng)
+        brng = random.Random(plan.get("seed", 0) * 31 + 7)
         fixed = plan.get("commands")
         n = len(fixed) if fixed is not None else plan.get("length", 20)
         port = None
@@ -248,6 +263,21 @@ async def run_sequence(net, hyg, plan):
             dstatus = None
             if r1 not in (None, "EOF") and r1.code.startswith("1"):
                 marks = 1
+                if is_xfer and data == "after" and port is not None and brng.random() < 0.4:
+                    # another command between the mark and the data connection: it is answered at once, and the transfer
+                    # stays the one that was announced (path, restart offset, user as they were when it was accepted)
+                    bverb, barg = brng.choice([("PWD", ""), ("TYPE", "I"), ("CWD", "/a"), ("CWD", ".."), ("SYST", ""), ("NOOP", ""),
+                                               ("MLST", "/top.txt"), ("CDUP", "")])
+                    eb = m.step(bverb, barg)
+                    rb = await p.cmd(bverb + ((" " + barg) if barg else ""))
+                    bcode = rb.code if rb not in (None, "EOF") else str(rb)
+                    transcript.append([bverb, barg, "between:" + bcode])
+                    mon["between_mark_and_data"] = mon.get("between_mark_and_data", 0) + 1
+                    if rb in (None, "EOF") or not eb.accepts(bcode):
+                        bad("wrong-reply", bverb, "between", f"{where}: {bverb} {barg!r} sent between the mark and the data connection "
+                                                             f"answered {bcode}, model accepts {eb}")
+                        break
+                    m.observe(eb, bcode)
                 if is_xfer and data == "after" and port is not None:
                     try:
                         conn = await p.open_data(port)
@@ -343,6 +373,8 @@ async def run_sequence(net, hyg, plan):
                 bad("tree-differs", verb, cls, f"{where} -> {code}: back-end tree differs from the model at {diff[:4]}")
                 break
         p.cut("fin")
+        for hp in holders:
+            hp.cut("fin")
         await w.stop()
         return {"violations": viol, "monitors": mon, "sig": sig_of(transcript), "nontrivial": len(transcript) >= 3,
                 "transcript": transcript}
@@ -388,7 +420,7 @@ def gen_cases(tier, seed):
     for i in range(nrand):
         cases.append({"plan": {"seed": seed * 1000003 + i, "length": 30, "users": "A" if i % 3 else "B",
                                "mss": [1460, 1460, 7, 64][i % 4], "block_size": [8192, 512, 7][i % 3],
-                               "cfg": [None, None, "wft-none", "limits", "timeouts"][i % 5]}})
+                               "cfg": [None, None, "wft-none", "limits", "timeouts", "limits-held"][i % 6]}})
     login = [("USER", "anonymous", None, "user")]
     L = 2 if tier == "quick" else 3
     stride = 1
@@ -429,12 +461,12 @@ def gen_cases(tier, seed):
                 seq = [("USER", "bob", None, "user") if x is A else x for x in seq]
             cases.append({"plan": {"seed": seed, "users": users,
                                    "commands": [list(x) for x in seq + [("PWD", "", None, "plain")]]}})
-            for cfg in ("wft-none", "limits", "timeouts"):
+            for cfg in ("wft-none", "limits", "timeouts", "limits-held"):
                 cases.append({"plan": {"seed": seed, "users": users, "cfg": cfg,
                                        "commands": [list(x) for x in seq + [("PWD", "", None, "plain")]]}})
     # pairs under non-default server configurations (a third of them each)
     for k, seq in enumerate(itertools.product(ALPHABET, repeat=2)):
-        cfg = ["wft-none", "limits", "timeouts"][k % 3]
+        cfg = ["wft-none", "limits", "timeouts", "limits-held"][k % 4]
         cases.append({"plan": {"seed": seed, "cfg": cfg, "commands": [list(x) for x in login + list(seq) + [("PWD", "", None, "plain")]]}})
     if tier == "thorough":
         for i in range(300):
